@@ -355,6 +355,20 @@ def _check_descend(ctx, m, fn):
     loops = [n for n in iter_own(fn) if isinstance(n, (ast.For, ast.While))]
     comps = [n for n in iter_own(fn) if isinstance(n, (ast.ListComp, ast.GeneratorExp))]
     label = 'descend_into_nodelist'
+    # the children are visited when descend_* is called, not when (and if) the parent looks at the
+    # results: a returned iterator (map, filter, zip, generator expression) defers or loses the visits
+    lazy = [r for r in iter_own(fn) if isinstance(r, ast.Return) and r.value is not None and (
+        isinstance(r.value, ast.GeneratorExp) or (
+            isinstance(r.value, ast.Call) and isinstance(r.value.func, ast.Name)
+            and r.value.func.id in ('map', 'filter', 'zip', 'iter', 'reversed', 'imap')))]
+    if lazy:
+        ctx.refuted('V3', m, lazy[0], 'descend_into_nodelist returns the lazy iterator %s: the children are visited only '
+                    'when the parent callback iterates over its results -- after the parent has been entered, or '
+                    'never -- and the parent receives an iterator instead of the list of results'
+                    % short(lazy[0].value, 60), construct=label + ': eager results')
+        return
+    ctx.holds('V3', m, fn, 'results are collected before returning (no iterator is returned)',
+              construct=label + ': eager results', trivial=True)
     if len(loops) == 1 and isinstance(loops[0], ast.For) and not comps:
         lp = loops[0]
         ok_iter = unparse(lp.iter) == p
